@@ -2974,6 +2974,430 @@ def generate_expl_driver():
 # ---- END explainer driver (generate_expl_driver) ----
 
 
+# ---- BEGIN pastifier driver (generate_pastify_driver: StlPastifier.pastify / normalize_units / visit -> Rtamt/Py/GeneratedPastDrv.lean) ----
+PASTDRV_FILE = "rtamt/pastifier/stl/pastifier.py"
+OUT_PASTDRV = os.path.join(os.path.dirname(HERE), "lean", "Rtamt", "Py", "GeneratedPastDrv.lean")
+PASTDRV_METHODS = ["pastify", "normalize_units", "visit"]
+
+
+class PastDrvTr:
+    """`StlPastifier.pastify`, `normalize_units`, `visit` -> terms of `Rtamt/Py/PastDrv.lean` (`DE` / `DS`).  Purely syntactic:
+    names, attribute accesses, subscripts, calls and assignments are mapped to the constructor of the same shape; what they mean
+    for which object is decided by the semantics in Lean, not here."""
+
+    def expr(self, e):
+        t = src(e)
+        if isinstance(e, ast.Name):
+            if e.id == "self":
+                return ".self_"
+            return "(.loc %s)" % q(e.id)
+        if isinstance(e, ast.Constant):
+            if e.value is None:
+                return ".none_"
+            if isinstance(e.value, bool):
+                return "(.unsupported %s)" % q(t)
+            if isinstance(e.value, int):
+                return "(.int %d)" % e.value
+            if isinstance(e.value, str):
+                return "(.str %s)" % q(e.value)
+        if isinstance(e, ast.List) and not e.elts:
+            return ".emptyList"
+        if isinstance(e, ast.Attribute):
+            return "(.attr %s %s)" % (self.expr(e.value), q(e.attr))
+        if isinstance(e, ast.Subscript) and not isinstance(e.slice, ast.Slice):
+            return "(.index %s %s)" % (self.expr(e.value), self.expr(e.slice))
+        if isinstance(e, ast.BinOp) and isinstance(e.op, (ast.Mult, ast.Div)):
+            return "(.%s %s %s)" % ("mul" if isinstance(e.op, ast.Mult) else "div", self.expr(e.left), self.expr(e.right))
+        if isinstance(e, ast.Compare) and len(e.ops) == 1 and isinstance(e.ops[0], (ast.Eq, ast.Gt)):
+            return "(.%s %s %s)" % ("eq" if isinstance(e.ops[0], ast.Eq) else "gt", self.expr(e.left), self.expr(e.comparators[0]))
+        if isinstance(e, ast.Call) and isinstance(e.func, ast.Name) and not e.keywords \
+                and not any(isinstance(a, ast.Starred) for a in e.args):
+            f, a = e.func.id, e.args
+            if f == "len" and len(a) == 1:
+                return "(.len %s)" % self.expr(a[0])
+            if f == "Fraction" and len(a) == 1:
+                return "(.frac %s)" % self.expr(a[0])
+            if f == "isinstance" and len(a) == 2 and isinstance(a[1], ast.Name):
+                return "(.isInst %s %s)" % (self.expr(a[0]), q(a[1].id))
+            if f == "dict" and not a:
+                return ".emptyDict"
+        # [k for k, v in D.items() if v == E]
+        if isinstance(e, ast.ListComp) and len(e.generators) == 1:
+            g = e.generators[0]
+            if not g.is_async and isinstance(g.target, ast.Tuple) and len(g.target.elts) == 2 \
+                    and all(isinstance(x, ast.Name) for x in g.target.elts) and g.target.elts[0].id != g.target.elts[1].id \
+                    and isinstance(e.elt, ast.Name) and e.elt.id == g.target.elts[0].id \
+                    and isinstance(g.iter, ast.Call) and isinstance(g.iter.func, ast.Attribute) and g.iter.func.attr == "items" \
+                    and not g.iter.args and not g.iter.keywords and len(g.ifs) == 1:
+                c = g.ifs[0]
+                bound = {g.target.elts[0].id, g.target.elts[1].id}
+                if isinstance(c, ast.Compare) and len(c.ops) == 1 and isinstance(c.ops[0], ast.Eq) \
+                        and isinstance(c.left, ast.Name) and c.left.id == g.target.elts[1].id \
+                        and not any(isinstance(n, ast.Name) and n.id in bound for n in ast.walk(c.comparators[0])) \
+                        and not any(isinstance(n, ast.Name) and n.id in bound for n in ast.walk(g.iter.func.value)):
+                    return "(.keysWhereEq %s %s)" % (self.expr(g.iter.func.value), self.expr(c.comparators[0]))
+        # {key: V for key in KEYS}
+        if isinstance(e, ast.DictComp) and len(e.generators) == 1:
+            g = e.generators[0]
+            if not g.is_async and not g.ifs and isinstance(g.target, ast.Name) and isinstance(e.key, ast.Name) \
+                    and e.key.id == g.target.id \
+                    and not any(isinstance(n, ast.Name) and n.id == g.target.id for n in ast.walk(e.value)) \
+                    and not any(isinstance(n, ast.Name) and n.id == g.target.id for n in ast.walk(g.iter)):
+                return "(.constDict %s %s)" % (self.expr(g.iter), self.expr(e.value))
+        return "(.unsupported %s)" % q(t)
+
+    def arg(self, a):
+        if isinstance(a, ast.Starred):
+            return "(.star %s)" % self.expr(a.value)
+        return self.expr(a)
+
+    def call(self, target, c):
+        """`target = recv.m(args)` / `recv.m(args)` / `target = Cls(args)` — calls that may have an effect are statements."""
+        if not isinstance(c, ast.Call):
+            return None
+        args = [self.arg(a) for a in c.args]
+        for k in c.keywords:
+            if k.arg is not None:
+                return None
+            args.append("(.dstar %s)" % self.expr(k.value))
+        tgt = "none" if target is None else "(some %s)" % q(target)
+        if isinstance(c.func, ast.Attribute):
+            recv = c.func.value
+            r = "(.glob %s)" % q(recv.id) if isinstance(recv, ast.Name) and recv.id[:1].isupper() else self.expr(recv)
+            return "(.call %s %s %s [%s])" % (tgt, r, q(c.func.attr), ", ".join(args))
+        if isinstance(c.func, ast.Name) and c.func.id[:1].isupper() and c.func.id != "Fraction":
+            return "(.call %s (.glob %s) \"()\" [%s])" % (tgt, q(c.func.id), ", ".join(args))
+        return None
+
+    def block(self, stmts):
+        items = [self.stmt(s) for s in stmts]
+        items = [i for i in items if i != ".skip"]
+        if not items:
+            return ".skip"
+        out = items[-1]
+        for i in reversed(items[:-1]):
+            out = "(.seq %s %s)" % (i, out)
+        return out
+
+    def stmt(self, s):
+        if isinstance(s, ast.Pass):
+            return ".skip"
+        if isinstance(s, ast.Expr) and isinstance(s.value, ast.Constant) and isinstance(s.value.value, str):
+            return ".skip"                       # a docstring
+        if isinstance(s, ast.Expr):
+            c = self.call(None, s.value)
+            if c is not None:
+                return c
+        if isinstance(s, ast.Assign) and len(s.targets) == 1:
+            t = s.targets[0]
+            if isinstance(t, ast.Name):
+                c = self.call(t.id, s.value)
+                if c is not None:
+                    return c
+                return "(.setLoc %s %s)" % (q(t.id), self.expr(s.value))
+            if isinstance(t, ast.Attribute):
+                return "(.setAttr %s %s %s)" % (self.expr(t.value), q(t.attr), self.expr(s.value))
+            if isinstance(t, ast.Subscript) and isinstance(t.value, ast.Name) and not isinstance(t.slice, ast.Slice):
+                return "(.setItem %s %s %s)" % (q(t.value.id), self.expr(t.slice), self.expr(s.value))
+        if isinstance(s, ast.If):
+            return "(.ite %s %s %s)" % (self.expr(s.test), self.block(s.body), self.block(s.orelse))
+        if isinstance(s, ast.For) and not s.orelse and isinstance(s.target, ast.Name):
+            return "(.forIn %s %s %s)" % (q(s.target.id), self.expr(s.iter), self.block(s.body))
+        return "(.unsupported %s)" % q(src(s))
+
+
+def generate_pastify_driver(path=None):
+    """The driver of the pastifier: `pastify()`, `normalize_units()` and the overriding `visit()` of `StlPastifier`."""
+    tree = ast.parse(open(path or os.path.join(REPO, PASTDRV_FILE)).read())
+    cls = [n for n in tree.body if isinstance(n, ast.ClassDef) and n.name == "StlPastifier"]
+    last = {}
+    for m in (cls[0].body if cls else []):          # a name defined twice in the class body: the last definition is the method
+        if isinstance(m, ast.FunctionDef):
+            last[m.name] = m
+    tr = PastDrvTr()
+    lines = ["/- GENERATED by harness/py2lean.py from %s of /repo on every run - do not edit. -/" % PASTDRV_FILE,
+             "import Rtamt.Py.PastDrv", "", "namespace Rtamt.Py.Gen.PastDrv", "open Rtamt Rtamt.Py Rtamt.Py.PDrv", ""]
+    for name in PASTDRV_METHODS:
+        m = last.get(name)
+        lines.append("/-- `StlPastifier.%s` -/" % name)
+        if m is None or m.decorator_list or m.args.defaults or m.args.kwonlyargs or m.args.posonlyargs \
+                or not m.args.args or m.args.args[0].arg != "self":
+            lines.append("def %s : DMethod :=\n  { params := [], vararg := none, kwarg := none, body := (.unsupported \"missing method\"), ret := none }" % name)
+            lines.append("")
+            continue
+        body = list(m.body)
+        ret = "none"
+        if body and isinstance(body[-1], ast.Return) and body[-1].value is not None:
+            ret = "(some %s)" % tr.expr(body.pop().value)
+        btxt = tr.block(body)
+        if any(isinstance(x, (ast.Return, ast.Yield, ast.YieldFrom)) for st in body for x in ast.walk(st)):
+            btxt = "(.unsupported %s)" % q("return inside " + name)
+        opt = lambda a: "none" if a is None else "(some %s)" % q(a.arg)
+        lines.append("def %s : DMethod :=\n  { params := [%s], vararg := %s, kwarg := %s, body := %s, ret := %s }"
+                     % (name, ", ".join(q(a.arg) for a in m.args.args[1:]), opt(m.args.vararg), opt(m.args.kwarg), btxt, ret))
+        lines.append("")
+    lines.append("def methods : List (String × DMethod) := [%s]" % ", ".join("(%s, %s)" % (q(n), n) for n in PASTDRV_METHODS))
+    lines.append("")
+    lines.append("end Rtamt.Py.Gen.PastDrv")
+    return "\n".join(lines) + "\n"
+# ---- END pastifier driver (generate_pastify_driver) ----
+
+
+# ---- BEGIN dense-time offline evaluate (generate_dense_offline_evaluate) ---------------------------------------------
+# `AbstractDenseTimeOfflineInterpreter.evaluate(dataset)` as a whole method (with `exist_ast` and
+# `set_variable_to_ast_from_dataset` - found along the MRO of `DenseTimeOfflineInterpreter` - inlined) and
+# `AbstractAstVisitor.visitAst` -> terms of `Rtamt/Py/DnEval.lean` (file `lean/Rtamt/Py/GeneratedDnEval.lean`).
+DE_OFFLINE_INTERP_FILE = "rtamt/semantics/abstract_dense_time_offline_interpreter.py"
+OUT_DNEVAL = os.path.join(os.path.dirname(HERE), "lean", "Rtamt", "Py", "GeneratedDnEval.lean")
+# the classes of `DenseTimeOfflineInterpreter(AbstractDenseTimeOfflineInterpreter, StlDenseTimeOfflineAstVisitor)` in the order of
+# its MRO (the class statements found are written into the generated file and checked there)
+DE_MRO = [("DenseTimeOfflineInterpreter", DE_OFFLINE_INTERP_FILE),
+          ("AbstractDenseTimeOfflineInterpreter", DE_OFFLINE_INTERP_FILE),
+          ("AbstractOfflineInterpreter", "rtamt/semantics/abstract_offline_interpreter.py"),
+          ("AbstractInterpreter", "rtamt/semantics/abstract_interpreter.py"),
+          ("DenseTimeInterpreter", "rtamt/semantics/dense_time_interpreter.py"),
+          ("TimeInterpreter", "rtamt/semantics/time_interpreter.py"),
+          ("StlDenseTimeOfflineAstVisitor", "rtamt/semantics/stl/dense_time/offline/ast_visitor.py"),
+          ("StlAstVisitor", "rtamt/syntax/ast/visitor/stl/ast_visitor.py"),
+          ("LtlAstVisitor", "rtamt/syntax/ast/visitor/ltl/ast_visitor.py"),
+          ("AbstractAstVisitor", "rtamt/syntax/ast/visitor/abstract_ast_visitor.py")]
+DE_METHODS = ["evaluate", "set_variable_to_ast_from_dataset", "exist_ast", "visitAst", "visit", "visitSpec"]
+
+
+class DnEvalTr:
+    """Methods of the dense-time offline interpreter -> terms of `Rtamt/Py/DnEval.lean`."""
+
+    def __init__(self, resolve):
+        self.resolve = resolve         # method name -> (defining class, FunctionDef): the first class of the MRO that has it
+        self.cur = None                # the method being translated (the outermost one while a call is inlined)
+        self.sig = None                # the method whose parameters are in scope
+
+    def unsup(self, x):
+        return "(.unsupported %s)" % q(x if isinstance(x, str) else src(x))
+
+    def expr(self, e):
+        t = src(e)
+        if isinstance(e, ast.Name):
+            return "(.loc %s)" % q(e.id)
+        if isinstance(e, ast.Constant):
+            if isinstance(e.value, int) and not isinstance(e.value, bool):
+                return "(.intLit %d)" % e.value
+            if isinstance(e.value, str):
+                return "(.strLit %s)" % q(e.value)
+            return self.unsup(e)
+        if isinstance(e, ast.Compare) and len(e.ops) == 1:
+            if isinstance(e.ops[0], ast.Is) and src(e.left) == "self.ast" and isinstance(e.comparators[0], ast.Constant) \
+                    and e.comparators[0].value is None:
+                return ".astIsNone"
+            if isinstance(e.ops[0], ast.In):
+                return "(.isIn %s %s)" % (self.expr(e.left), self.expr(e.comparators[0]))
+            return self.unsup(e)
+        if t == "self.ast":
+            return ".selfAst"
+        if t == "self.ast.free_vars":
+            return ".freeVars"
+        if t == "self.ast.var_object_dict":
+            return ".varDict"
+        if isinstance(e, ast.Attribute) and e.attr == "specs" and isinstance(e.value, ast.Name) and self.sig is not None \
+                and e.value.id in [a.arg for a in self.sig.args.args[1:]]:
+            return "(.specsOf %s)" % q(e.value.id)
+        if isinstance(e, ast.Subscript) and not isinstance(e.slice, (ast.Slice, ast.Tuple)):
+            return "(.idx %s %s)" % (self.expr(e.value), self.expr(e.slice))
+        if isinstance(e, ast.BinOp) and isinstance(e.op, ast.Sub):
+            return "(.sub %s %s)" % (self.expr(e.left), self.expr(e.right))
+        if isinstance(e, ast.List):
+            if not e.elts:
+                return ".emptyList"
+            return self.unsup(e)
+        if isinstance(e, ast.Call) and isinstance(e.func, ast.Name) and not e.keywords \
+                and not any(isinstance(a, ast.Starred) for a in e.args):
+            if e.func.id == "len" and len(e.args) == 1:
+                return "(.len %s)" % self.expr(e.args[0])
+            return self.unsup(e)
+        if isinstance(e, ast.Call) and isinstance(e.func, ast.Attribute) and e.func.attr == "fromkeys" and not e.keywords \
+                and len(e.args) == 2 and not any(isinstance(a, ast.Starred) for a in e.args):
+            # d.fromkeys(iterable, value): a new dictionary, every key of the iterable mapped to the (one) value
+            return "(.fromkeys %s %s %s)" % (self.expr(e.func.value), self.expr(e.args[0]), self.expr(e.args[1]))
+        if isinstance(e, ast.Call) and src(e.func) == "self.visit" and self.sig is not None:
+            # self.visit(node, *args, **kwargs) with the star parameters of the enclosing method
+            va, kw = self.sig.args.vararg, self.sig.args.kwarg
+            if va is not None and kw is not None and len(e.args) == 2 and not isinstance(e.args[0], ast.Starred) \
+                    and isinstance(e.args[1], ast.Starred) and src(e.args[1].value) == va.arg \
+                    and len(e.keywords) == 1 and e.keywords[0].arg is None and src(e.keywords[0].value) == kw.arg:
+                return "(.visit %s %s %s)" % (self.expr(e.args[0]), q(va.arg), q(kw.arg))
+            return self.unsup(e)
+        if isinstance(e, ast.Call) and src(e.func) == "self.visitAst" and not e.keywords and len(e.args) == 1 \
+                and not any(isinstance(a, ast.Starred) for a in e.args):
+            # self.visitAst(a): `*args` is the empty tuple, `**kwargs` the empty dictionary
+            r = self.resolve.get("visitAst")
+            if r is not None:
+                a = r[1].args
+                if len(a.args) == 2 and a.vararg is not None and a.kwarg is not None and not a.defaults and not a.kwonlyargs \
+                        and not r[1].decorator_list:
+                    return "(.callVisitAst %s)" % self.expr(e.args[0])
+            return self.unsup(e)
+        return self.unsup(e)
+
+    def seq(self, items):
+        items = [i for i in items if i != ".skip"]
+        if not items:
+            return ".skip"
+        out = items[-1]
+        for i in reversed(items[:-1]):
+            out = "(.seq %s %s)" % (i, out)
+        return out
+
+    def block(self, stmts):
+        return self.seq([self.stmt(s) for s in stmts])
+
+    def inline(self, c):
+        """`self.m(x, ...)`, `m` a method whose parameters are exactly the names `x, ...` and that returns nothing: its body."""
+        r = self.resolve.get(c.func.attr)
+        if r is None or c.keywords or self.cur is None:
+            return None
+        m = r[1]
+        a = m.args
+        if a.vararg or a.kwarg or a.kwonlyargs or a.defaults or m.decorator_list or not a.args or a.args[0].arg != "self":
+            return None
+        params = [x.arg for x in a.args[1:]]
+        if [src(x) for x in c.args] != params:
+            return None
+        body = list(m.body)
+        if body and isinstance(body[-1], ast.Return) and body[-1].value is None:
+            body.pop()
+        if any(isinstance(x, ast.Return) for st in body for x in ast.walk(st)):
+            return None
+        mine = {x.id for x in ast.walk(m) if isinstance(x, ast.Name) and isinstance(x.ctx, ast.Store)}
+        theirs = {x.id for x in ast.walk(self.cur) if isinstance(x, ast.Name)}
+        if (mine & theirs) or (mine & set(params)) or m is self.cur:
+            return None
+        outer, self.sig = self.sig, m
+        try:
+            return self.block(body)
+        finally:
+            self.sig = outer
+
+    def stmt(self, s):
+        if isinstance(s, ast.Pass) or (isinstance(s, ast.Expr) and isinstance(s.value, ast.Constant)):
+            return ".skip"
+        if isinstance(s, ast.Assign) and len(s.targets) == 1:
+            tg, v = s.targets[0], s.value
+            if isinstance(tg, ast.Name):
+                return "(.setLoc %s %s)" % (q(tg.id), self.expr(v))
+            if isinstance(tg, ast.Subscript) and src(tg.value) == "self.ast.var_object_dict" \
+                    and not isinstance(tg.slice, (ast.Slice, ast.Tuple)):
+                return "(.setVar %s %s)" % (self.expr(tg.slice), self.expr(v))
+            if src(tg) == "self.ast.var_object_dict":
+                return "(.setVarDict %s)" % self.expr(v)
+            return self.unsup(s)
+        if isinstance(s, ast.Expr) and isinstance(s.value, ast.Call):
+            c = s.value
+            if isinstance(c.func, ast.Attribute) and c.func.attr == "append" and isinstance(c.func.value, ast.Name) and len(c.args) == 1 \
+                    and not c.keywords and not isinstance(c.args[0], ast.Starred):
+                return "(.appendLoc %s %s)" % (q(c.func.value.id), self.expr(c.args[0]))
+            if isinstance(c.func, ast.Attribute) and src(c.func.value) == "self":
+                r = self.inline(c)
+                if r is not None:
+                    return r
+            return self.unsup(s)
+        if isinstance(s, ast.If):
+            return "(.ite %s %s %s)" % (self.expr(s.test), self.block(s.body), self.block(s.orelse))
+        if isinstance(s, ast.Raise) and isinstance(s.exc, ast.Call) and isinstance(s.exc.func, ast.Name) and s.cause is None \
+                and s.exc.func.id in ("RTAMTException", "Exception"):
+            return "(.raise .rtamt)" if s.exc.func.id == "RTAMTException" else "(.raise .other)"
+        if isinstance(s, ast.For) and not s.orelse and isinstance(s.target, ast.Name):
+            return "(.forIn %s %s %s)" % (q(s.target.id), self.expr(s.iter), self.block(s.body))
+        return self.unsup(s)
+
+    def method(self, name):
+        r = self.resolve.get(name)
+        if r is None:
+            return "{ params := [], body := (.unsupported \"missing method\"), ret := none }"
+        m = r[1]
+        a = m.args
+        if a.kwonlyargs or a.defaults or a.posonlyargs or m.decorator_list or not a.args or a.args[0].arg != "self":
+            return "{ params := [], body := (.unsupported %s), ret := none }" % q("signature of " + name)
+        params = [x.arg for x in a.args[1:]] + ([a.vararg.arg] if a.vararg else []) + ([a.kwarg.arg] if a.kwarg else [])
+        body = list(m.body)
+        ret = "none"
+        self.cur = self.sig = m
+        try:
+            if body and isinstance(body[-1], ast.Return):
+                rv = body.pop().value
+                if rv is not None:
+                    ret = "(some %s)" % self.expr(rv)
+            if any(isinstance(x, ast.Return) for st in body for x in ast.walk(st)):
+                btxt = self.unsup("return inside " + name)
+            else:
+                btxt = self.block(body)
+        finally:
+            self.cur = self.sig = None
+        return "{ params := [%s], body := %s, ret := %s }" % (", ".join(q(p) for p in params), btxt, ret)
+
+
+def generate_dense_offline_evaluate(repo=None):
+    """`evaluate(dataset)` of the dense-time offline interpreter and `visitAst` (`repo`: the source tree, default `REPO`)."""
+    repo = REPO if repo is None else repo
+    found = []                     # (class, bases as written, {method name: FunctionDef})
+    for cname, path in DE_MRO:
+        try:
+            tree = ast.parse(open(os.path.join(repo, path)).read())
+        except OSError:
+            continue
+        cs = [n for n in ast.walk(tree) if isinstance(n, ast.ClassDef) and n.name == cname]
+        if len(cs) != 1:
+            continue
+        c = cs[0]
+        methods = {}
+        for n in c.body:
+            if isinstance(n, ast.FunctionDef):
+                # a name defined twice in one class statement: the last definition is the attribute
+                methods[n.name] = n
+            elif isinstance(n, (ast.Assign, ast.AnnAssign)):
+                # anything else in the class body that binds one of the names (an assignment `visitAst = ...`): unresolved
+                for t_ in (n.targets if isinstance(n, ast.Assign) else [n.target]):
+                    if isinstance(t_, ast.Name):
+                        methods[t_.id] = None
+            elif isinstance(n, (ast.AsyncFunctionDef, ast.ClassDef)):
+                methods[n.name] = None
+        found.append((cname, [src(b) for b in c.bases], methods))
+    resolve, resolution = {}, []
+    for nm in DE_METHODS:
+        for cname, _, methods in found:
+            if nm in methods:
+                if methods[nm] is not None:
+                    resolve[nm] = (cname, methods[nm])
+                resolution.append("(%s, %s)" % (q(nm), q(cname if methods[nm] is not None else cname + " (not a def)")))
+                break
+        else:
+            resolution.append("(%s, %s)" % (q(nm), q("")))
+    tr = DnEvalTr(resolve)
+    files = []
+    for _, p_ in DE_MRO:
+        if p_ not in files:
+            files.append(p_)
+    lines = ["/- GENERATED by harness/py2lean.py from %s of /repo on every run - do not edit. -/" % ", ".join(files),
+             "import Rtamt.Py.DnEval", "", "namespace Rtamt.Py.Gen.DnEval", "open Rtamt Rtamt.Py Rtamt.Py.DnEval", ""]
+    lines.append("/-- the classes of `DenseTimeOfflineInterpreter` in the order of its MRO, with the base classes as written -/")
+    lines.append("def bases : List (String × List String) :=\n  [%s]"
+                 % ", ".join("(%s, [%s])" % (q(c), ", ".join(q(b) for b in bs)) for c, bs, _ in found))
+    lines.append("")
+    lines.append("/-- the first class of that order that defines the method -/")
+    lines.append("def resolution : List (String × String) :=\n  [%s]" % ", ".join(resolution))
+    lines.append("")
+    names = []
+    for nm, note in (("evaluate", " (`exist_ast` and `set_variable_to_ast_from_dataset` inlined)"), ("visitAst", "")):
+        lines.append("/-- `%s.%s`%s -/" % (resolve[nm][0] if nm in resolve else "?", nm, note))
+        lines.append("def %s : EMethod :=\n  %s" % (nm, tr.method(nm)))
+        lines.append("")
+        names.append(nm)
+    lines.append("def methods : List (String × EMethod) :=\n  [%s]" % ", ".join("(%s, %s)" % (q(n), n) for n in names))
+    lines.append("")
+    lines.append("end Rtamt.Py.Gen.DnEval")
+    return "\n".join(lines) + "\n"
+# ---- END dense-time offline evaluate (generate_dense_offline_evaluate) -----------------------------------------------
+
+
 # ---- BEGIN specification-level forwarding (rtamt/spec/abstract_specification.py -> Rtamt/Py/GeneratedFwd.lean) ----
 SPEC_FILE = "rtamt/spec/abstract_specification.py"
 OUT_FWD = os.path.join(os.path.dirname(HERE), "lean", "Rtamt", "Py", "GeneratedFwd.lean")
@@ -3233,6 +3657,8 @@ def main():
     write_if_changed(OUT_EXPL, generate_expl())
     write_if_changed(OUT_GLUE, generate_glue())
     write_if_changed(OUT_GLUE_DN, generate_glue_dense())     # dense-time glue
+    write_if_changed(OUT_DNEVAL, generate_dense_offline_evaluate())     # dense-time offline evaluate
+    write_if_changed(OUT_PASTDRV, generate_pastify_driver())     # driver of the pastifier
     write_if_changed(OUT_EXPL_DRV, generate_expl_driver())     # explainer driver
     write_if_changed(OUT_OFFEVAL, generate_offline_evaluate())     # offline evaluate
     write_if_changed(OUT_GLUE_UPD, generate_glue_update())   # discrete-time online update()/reset() as whole methods
